@@ -1,8 +1,10 @@
 #!/bin/sh
 # Runs every stored seeded change against the check of its property; prints one line per seed.
+# usage: run_all_seeded.sh [regex on the seed name, e.g. '^C0']   (SEED_REPO names another checkout)
 cd /verif/seeded || exit 2
 for d in */; do
   d=${d%/}
+  [ -n "$1" ] && ! echo "$d" | grep -q "$1" && continue
   P=$(python3 -c "import json; print(json.load(open('/verif/seeded/$d/meta.json'))['property'])")
   EXTRA=$(python3 -c "import json; print(' '.join(json.load(open('/verif/seeded/$d/meta.json')).get('also_check',[])))")
   RES=""
